@@ -66,6 +66,7 @@ type e5 struct {
 	runErr  error
 	acceptErrs map[string]error
 	connOf  map[net.Conn]*muxDial
+	postRunAccepted bool
 	noAcc   map[string]bool // listeners (route prefix or "default") on which nobody calls Accept
 	reRouteStep map[string]int // step at which a second Route(p) handed out a fresh listener
 }
@@ -146,6 +147,10 @@ func (x *e5) acceptor(name string, lis net.Listener, max int) {
 				}
 			}
 			dl.got[name] = buf.Bytes()
+			// the server side closes what it accepted, sometimes twice (Close is idempotent)
+			for i := 0; i < 1+dl.id%2; i++ {
+				x.call("CloseAccepted "+name, func() { _ = c2.Close() })
+			}
 		})
 	}
 }
@@ -415,6 +420,21 @@ func runE5(spec RunSpec, ch *Choices) *RunResult {
 		}
 	})
 	q := x.d.Run()
+	if q && x.runDone {
+		// a route asked for after Run returned: its Accept fails, it does not block
+		x.rt.Spawn("post-run-route", func() {
+			var lis net.Listener
+			x.call("Route after Run returned", func() { lis = x.mux.Route(mkPrefix(7)) })
+			var err error
+			x.call("Accept post-run", func() { _, err = lis.Accept() })
+			x.acceptErrs["post-run"] = err
+			x.postRunAccepted = true
+		})
+		q = x.d.Run()
+		if q && !x.postRunAccepted {
+			x.viol("stop", "Accept on a route registered after Run returned blocks for ever", "")
+		}
+	}
 	if q {
 		x.checkRouting(stop != "none" && x.stopStep > 0)
 		// teardown: stop the mux; everything must exit
@@ -574,7 +594,15 @@ func (x *e5) checkRouting(stopped bool) {
 					parked = x.noAcc["default"]
 				}
 			}
-			if !dl.b.IsClosed() && !inBase && !waiting && !parked && !x.base.closed {
+			// (a stopped base listener resets what it never handed out; a connection its
+			// Accept DID return is the multiplexer's to deliver or close, stopped or not)
+			handedOut := false
+			for _, c := range x.base.Accepted {
+				if c == net.Conn(dl.b) {
+					handedOut = true
+				}
+			}
+			if !dl.b.IsClosed() && !inBase && !waiting && !parked && (!x.base.closed || handedOut) {
 				x.viol("routing", "connection accepted by the base listener was neither delivered to a listener nor closed", fmt.Sprintf("%s sent=%d", id, len(dl.sent)))
 			}
 		}
